@@ -67,6 +67,12 @@ func pardoWorld(r *R) {
 		}
 		if withCtx && r.Choose(6, "fail") == 5 {
 			p.fail = NewErr(fmt.Sprintf("E%d", i))
+			switch r.Choose(6, "fail-flavour") { // an error of f's own that merely looks like a context error
+			case 4:
+				p.fail = context.DeadlineExceeded
+			case 5:
+				p.fail = fmt.Errorf("f(%d) gave up: %w", i, context.Canceled)
+			}
 			nfail++
 			if i == n-1 {
 				r.Probe("failure-in-last-index")
